@@ -10,6 +10,7 @@ mod keys;
 mod printer;
 mod pty;
 mod rawmode;
+mod render;
 #[cfg(feature = "sqlite")]
 mod sqlite;
 
@@ -32,6 +33,7 @@ fn exec_line(req: &str) -> String {
         Some(t) if t.starts_with("ed") => ed::exec(&f[1..]),
         Some("keys") => keys::exec(&f[1..]),
         Some("raw") => rawmode::exec(&f[1..]),
+        Some("render") => render::exec(&f[1..]),
         #[cfg(feature = "sqlite")]
         Some("sqlite") => sqlite::exec(&f[1..]),
         Some("pr") => printer::exec(&f[1..]),
@@ -117,8 +119,11 @@ fn main() {
                 "ed07" => ed::gen_profile(&ctx, "ed07", ed::Profile::History, &mut sink),
                 "ed08" => ed::gen_profile(&ctx, "ed08", ed::Profile::Search, &mut sink),
                 "ed14" => ed::gen_profile(&ctx, "ed14", ed::Profile::Complete, &mut sink),
+                "ed06" => ed::gen_profile(&ctx, "ed06", ed::Profile::Kill, &mut sink),
+                "ed05" => ed::gen_profile(&ctx, "ed05", ed::Profile::Undo, &mut sink),
                 "keys" => keys::gen(&ctx, &mut sink),
                 "raw" => rawmode::gen(&ctx, &mut sink),
+                "render" => render::gen(&ctx, &mut sink),
                 #[cfg(feature = "sqlite")]
                 "sqlite" => sqlite::gen(&ctx, &mut sink),
                 "pr" => printer::gen(&ctx, &mut sink),
